@@ -906,12 +906,32 @@ def r_rehash_loop(F, V):
     key2 = "raw::RawTableInner::rehash_in_place|arm-indices"
     same = [(i, t) for i, t in body.calls() if (callee_path(t) or "").endswith("RawTableInner::is_in_same_group")]
     fis = [(i, t) for i, t in body.calls() if (callee_path(t) or "").endswith("RawTableInner::find_insert_slot")]
-    if not same or not fis:
-        R.undec("rehash_in_place: is_in_same_group (%d) / find_insert_slot (%d) not found" % (len(same), len(fis)))
+    k_i = k_new = None
+    sg_i = None
+    if same:
+        sg_i, sg_t = same[0]
+        k_i = expr_key(body, sg_t["args"][1])
+        k_new = expr_key(body, sg_t["args"][2])
+    else:
+        # the helper inlined: `probe_index(i) == probe_index(new_i)` - an Eq of two results of one local closure
+        for bi, bk, bs in body.stmts():
+            if bs["k"] == "assign" and bs["rv"]["k"] == "binop" and bs["rv"]["op"] == "Eq":
+                ds = [body.single_def(o["p"]["l"]) if o["k"] in ("copy", "move") and not o["p"].get("proj") else None for o in (bs["rv"]["a"], bs["rv"]["b"])]
+                if all(d and d[0] == "call" for d in ds):
+                    cps = [V.site_callees(body, d[3]) for d in ds]
+                    if cps[0] and cps[0] == cps[1] and any(c.startswith(body.path + "::{closure") for c in cps[0]):
+                        def last_arg_key(t_):
+                            a_ = t_["args"][-1]
+                            # closure call arguments are passed as a tuple
+                            dd_ = body.single_def(a_["p"]["l"]) if a_["k"] in ("copy", "move") and not a_["p"].get("proj") else None
+                            if dd_ and dd_[0] == "stmt" and dd_[3]["rv"]["k"] == "aggregate" and dd_[3]["rv"]["ops"]:
+                                return expr_key(body, dd_[3]["rv"]["ops"][0])
+                            return expr_key(body, a_)
+                        k_i, k_new = last_arg_key(ds[0][3]), last_arg_key(ds[1][3])
+                        sg_i = ds[1][1]
+    if k_i is None or not fis:
+        R.undec("rehash_in_place: is_in_same_group (%d, or its inlined form) / find_insert_slot (%d) not found" % (len(same), len(fis)))
         return R
-    sg_i, sg_t = same[0]
-    k_i = expr_key(body, sg_t["args"][1])
-    k_new = expr_key(body, sg_t["args"][2])
     probs = []
     if k_i == k_new:
         probs.append("is_in_same_group compares a slot with itself")
